@@ -1,6 +1,8 @@
 package rules
 
 import (
+	"go/ast"
+	"go/constant"
 	"go/token"
 	"strings"
 
@@ -204,6 +206,54 @@ func R9Pivot(c *Ctx) {
 		c.R.Ok(rule, FuncShort(la), "t.DB.LinkAdd(parent, child)", c.pos(la.Pos()), "reached on every path", true)
 	} else {
 		c.R.Bad(rule, FuncShort(la), "t.DB.LinkAdd(parent, child)", c.pos(la.Pos()), "LinkAdd has a path that does not insert the row")
+	}
+	// Died detaches everything on every path
+	if died := c.P.Func(PkgServer, "Teamserver.Died"); died == nil {
+		c.R.Anchor(rule, "server.(*Teamserver).Died")
+	} else {
+		for _, callee := range []string{"(*Havoc/cmd/server.Teamserver).UnlinkFromAll", "(*Havoc/cmd/server.Teamserver).AgentUpdate"} {
+			if mustCall(died, callee) {
+				c.R.Ok(rule, FuncShort(died), "call "+shortCallee(callee), c.pos(died.Pos()), "reached on every path of Died", true)
+			} else {
+				c.R.Bad(rule, FuncShort(died), "call "+shortCallee(callee), c.pos(died.Pos()), "Died has a path that skips it: an agent that dies keeps its links (in memory and in the link table)")
+			}
+		}
+	}
+	// the link-table statements key on both columns
+	if pk := c.P.ByPath[PkgDB]; pk != nil {
+		for _, f := range pk.Syntax {
+			for _, d := range f.Decls {
+				fd, ok := d.(*ast.FuncDecl)
+				if !ok || fd.Body == nil || (fd.Name.Name != "LinkRemove" && fd.Name.Name != "LinkExist") {
+					continue
+				}
+				ast.Inspect(fd.Body, func(n ast.Node) bool {
+					call, ok := n.(*ast.CallExpr)
+					if !ok || len(call.Args) == 0 {
+						return true
+					}
+					tv, ok := pk.TypesInfo.Types[call.Args[0]]
+					if !ok || tv.Value == nil || tv.Value.Kind() != constant.String {
+						return true
+					}
+					st := parseSQL(constant.StringVal(tv.Value))
+					if st == nil || st.Table != "TS_Links" {
+						return true
+					}
+					has := map[string]bool{}
+					for _, w := range st.Where {
+						has[w] = true
+					}
+					construct := strings.ToUpper(st.Kind) + " TS_Links WHERE " + st.WhereTx
+					if has["ParentAgentID"] && has["LinkAgentID"] && len(st.Where) == 2 && strings.Contains(strings.ToUpper(st.WhereTx), " AND ") {
+						c.R.Ok(rule, DeclShort(pk, fd), construct, c.pos(call.Pos()), "a link row is identified by (parent, child)", true)
+					} else {
+						c.R.Bad(rule, DeclShort(pk, fd), construct, c.pos(call.Pos()), "the statement does not key on both ParentAgentID and LinkAgentID: removing/looking up one link touches the rows of other parents or children")
+					}
+					return true
+				})
+			}
+		}
 	}
 	// LinkRemove clears the child's Parent (when it is this parent) on every path
 	cleared := false
